@@ -10,6 +10,7 @@ import JanetModel.Int64.Lemmas
 import JanetModel.Int64.LemmasN
 import JanetModel.Int64.LemmasQ
 import JanetModel.Int64.LemmasC
+import JanetModel.Int64.IeeeQ
 namespace JanetModel.Props.C14
 open JanetModel.Int64 JanetModel.Gen.Int64
 
@@ -358,6 +359,103 @@ theorem num_mod_floor_convention (N : NumOps) (hf : FloorExact N) (a b : Nat) (h
   num_mod_value N hf a b hb hz hd hm hs
 
 theorem num_rem_is_fmod (N : NumOps) (a b : Nat) : numRemainder N a b = N.fmod a b := rfl
+
+/-! ### the IEEE-754 primitives themselves: the executable instance `Ieee.ieee` (what `jm_c14` runs, compared bit for bit with
+the hardware on ≥ 10^5 operand pairs per run)
+
+`Ieee.rneQ : ℚ → ℚ` is the mathematical round-to-nearest-even of binary64 (53 significant bits, quantum never below 2^-1074,
+exponent unbounded above; Flocq's `round radix2 (FLT_exp (-1074) 53) ZnearestE`).  Each operation on finite operands is `rneQ`
+of the exact rational result, ±infinity when that is ≥ 2^1024 in magnitude. -/
+
+open JanetModel.Int64.Ieee in
+/-- the specification is a nearest-even rounding: within half a unit in the last place, ties to the even significand,
+    integers are fixed points of the integer rounding, binary64 values are fixed points of `rneQ` -/
+theorem ieee_rounding_is_nearest_even (x : ℚ) (r : ℚ) (n : ℤ) (a : Nat) (ha : FinBits a) :
+    |rneQ x - x| ≤ 2 ^ cexp x / 2 ∧ |(rneInt r : ℚ) - r| ≤ 1 / 2 ∧ (r - ⌊r⌋ = 1 / 2 → rneInt r % 2 = 0) ∧ rneInt (n : ℚ) = n ∧
+    (rneQ (valQ a) = valQ a ∧ |valQ a| < 2 ^ (1024 : ℤ)) :=
+  ⟨rneQ_half_ulp x, rneInt_half r, rneInt_tie_even r, rneInt_intCast n, repr64_of_finBits a ha⟩
+
+open JanetModel.Int64.Ieee in
+/-- ★ "operators on ordinary numbers equal IEEE-754 double arithmetic": `+ - * /` of the instance on two finite doubles
+    (b ≠ 0 for `/`) give the correctly rounded exact result — a finite double whose value is `rneQ` of the exact rational
+    when that is below 2^1024 in magnitude, otherwise the infinity with the sign of the exact result -/
+theorem ieee_ops_correctly_rounded (a b : Nat) (n1 n2 : Bool) (m1 m2 : Nat) (e1 e2 : ℤ)
+    (ha : decode a = .fin n1 m1 e1) (hb : decode b = .fin n2 m2 e2) :
+    ((|rneQ (valQ a + valQ b)| < 2 ^ (1024 : ℤ) → FinBits (ieee.add a b) ∧ valQ (ieee.add a b) = rneQ (valQ a + valQ b)) ∧
+     ((2 : ℚ) ^ (1024 : ℤ) ≤ |rneQ (valQ a + valQ b)| → decode (ieee.add a b) = .inf (decide (valQ a + valQ b < 0)))) ∧
+    ((|rneQ (valQ a - valQ b)| < 2 ^ (1024 : ℤ) → FinBits (ieee.sub a b) ∧ valQ (ieee.sub a b) = rneQ (valQ a - valQ b)) ∧
+     ((2 : ℚ) ^ (1024 : ℤ) ≤ |rneQ (valQ a - valQ b)| → decode (ieee.sub a b) = .inf (decide (valQ a - valQ b < 0)))) ∧
+    ((|rneQ (valQ a * valQ b)| < 2 ^ (1024 : ℤ) → FinBits (ieee.mul a b) ∧ valQ (ieee.mul a b) = rneQ (valQ a * valQ b)) ∧
+     ((2 : ℚ) ^ (1024 : ℤ) ≤ |rneQ (valQ a * valQ b)| → decode (ieee.mul a b) = .inf (n1 != n2))) ∧
+    (m2 ≠ 0 →
+     (|rneQ (valQ a / valQ b)| < 2 ^ (1024 : ℤ) → FinBits (ieee.div a b) ∧ valQ (ieee.div a b) = rneQ (valQ a / valQ b)) ∧
+     ((2 : ℚ) ^ (1024 : ℤ) ≤ |rneQ (valQ a / valQ b)| → decode (ieee.div a b) = .inf (n1 != n2))) :=
+  ⟨add_correct a b n1 n2 m1 m2 e1 e2 ha hb, sub_correct a b n1 n2 m1 m2 e1 e2 ha hb, mul_correct a b n1 n2 m1 m2 e1 e2 ha hb,
+   fun h => div_correct a b n1 n2 m1 m2 e1 e2 ha hb h⟩
+
+open JanetModel.Int64.Ieee in
+/-- ★ libm `floor` of the instance is the mathematical floor (the former hypothesis `FloorExact`), and every operation is
+    exact when the exact result is a double (the former per-input hypothesis `ExactAt`) -/
+theorem ieee_floor_exact_and_ops_exact_when_representable :
+    FloorExact ieee ∧
+    (∀ a b c, FinBits a → FinBits b → FinBits c →
+      (valQ a + valQ b = valQ c → valQ (ieee.add a b) = valQ c) ∧ (valQ a - valQ b = valQ c → valQ (ieee.sub a b) = valQ c) ∧
+      (valQ a * valQ b = valQ c → valQ (ieee.mul a b) = valQ c) ∧
+      (isZeroBits b = false → valQ a / valQ b = valQ c → valQ (ieee.div a b) = valQ c)) :=
+  ⟨floor_exact, fun a b c ha hb hc => ops_exact_when_representable a b c ha hb hc⟩
+
+open JanetModel.Int64.Ieee in
+/-- ★ what the janet VM computes for `(div a b)` on two finite doubles, b ≠ 0, in terms of the exact rationals:
+    **⌊RN(a / b)⌋** (RN = `rneQ`); no hypothesis about the primitives (only: the quotient does not overflow) -/
+theorem num_div_is_floor_of_rounded_quotient (a b : Nat) (ha : FinBits a) (hb : FinBits b) (hz : isZeroBits b = false)
+    (hfin : |rneQ (valQ a / valQ b)| < 2 ^ (1024 : ℤ)) :
+    FinBits (numDivFloor ieee a b) ∧ valQ (numDivFloor ieee a b) = ((⌊rneQ (valQ a / valQ b)⌋ : ℤ) : ℚ) :=
+  (ieee_num_div a b ha hb hz hfin).2.2
+
+open JanetModel.Int64.Ieee in
+/-- ★ `(mod a b)`, b ≠ 0: **RN(a − RN(b · ⌊RN(a / b)⌋))**; and when the three exact intermediate results are doubles
+    (`Repr64`: fixed by the rounding, in range — true e.g. of integers of moderate size) it is a − b⌊a/b⌋ exactly, with the
+    sign of the divisor: in [0, b) for b > 0, in (b, 0] for b < 0.  `(mod a ±0)` = a: `num_mod_zero_is_dividend`.
+    `(% a b)` is C `fmod`, computed exactly by the instance (`num_rem_is_fmod`). -/
+theorem num_mod_over_ieee (a b : Nat) (ha : FinBits a) (hb : FinBits b) (hz : isZeroBits b = false) :
+    (|rneQ (valQ a / valQ b)| < 2 ^ (1024 : ℤ) →
+     |rneQ (valQ b * ((⌊rneQ (valQ a / valQ b)⌋ : ℤ) : ℚ))| < 2 ^ (1024 : ℤ) →
+     |rneQ (valQ a - rneQ (valQ b * ((⌊rneQ (valQ a / valQ b)⌋ : ℤ) : ℚ)))| < 2 ^ (1024 : ℤ) →
+     valQ (numModulo ieee a b) = rneQ (valQ a - rneQ (valQ b * ((⌊rneQ (valQ a / valQ b)⌋ : ℤ) : ℚ)))) ∧
+    (Repr64 (valQ a / valQ b) → Repr64 (valQ b * ((⌊valQ a / valQ b⌋ : ℤ) : ℚ)) →
+     Repr64 (valQ a - valQ b * ((⌊valQ a / valQ b⌋ : ℤ) : ℚ)) →
+     valQ (numModulo ieee a b) = valQ a - valQ b * ((⌊valQ a / valQ b⌋ : ℤ) : ℚ) ∧
+     (0 < valQ b → 0 ≤ valQ (numModulo ieee a b) ∧ valQ (numModulo ieee a b) < valQ b) ∧
+     (valQ b < 0 → valQ b < valQ (numModulo ieee a b) ∧ valQ (numModulo ieee a b) ≤ 0)) :=
+  ⟨fun h1 h2 h3 => (ieee_num_mod a b ha hb hz h1 h2 h3).2, fun r1 r2 r3 => ieee_num_mod_exact a b ha hb hz r1 r2 r3⟩
+
+open JanetModel.Int64.Ieee in
+/-- non-vacuity: `(mod 7 2)` — all hypotheses of the exact case hold, the result is 1 -/
+example : valQ (numModulo ieee 0x401c000000000000 0x4000000000000000) = 1 := by
+  have d7 : decode 0x401c000000000000 = .fin false 7881299347898368 (-50) := by decide
+  have d2 : decode 0x4000000000000000 = .fin false 4503599627370496 (-51) := by decide
+  have d35 : decode 0x400c000000000000 = .fin false 7881299347898368 (-51) := by decide
+  have d6 : decode 0x4018000000000000 = .fin false 6755399441055744 (-50) := by decide
+  have d1 : decode 0x3ff0000000000000 = .fin false 4503599627370496 (-52) := by decide
+  have v7 : valQ 0x401c000000000000 = 7 := by rw [valQ_of_decode _ _ _ _ d7]; norm_num [sgnQ, zpow_neg]
+  have v2 : valQ 0x4000000000000000 = 2 := by rw [valQ_of_decode _ _ _ _ d2]; norm_num [sgnQ, zpow_neg]
+  have v35 : valQ 0x400c000000000000 = 7 / 2 := by rw [valQ_of_decode _ _ _ _ d35]; norm_num [sgnQ, zpow_neg]
+  have v6 : valQ 0x4018000000000000 = 6 := by rw [valQ_of_decode _ _ _ _ d6]; norm_num [sgnQ, zpow_neg]
+  have v1 : valQ 0x3ff0000000000000 = 1 := by rw [valQ_of_decode _ _ _ _ d1]; norm_num [sgnQ, zpow_neg]
+  have hfl : ⌊(7 : ℚ) / 2⌋ = 3 := by rw [Int.floor_eq_iff]; norm_num
+  have r1 : Repr64 (valQ 0x401c000000000000 / valQ 0x4000000000000000) := by
+    rw [v7, v2, ← v35]; exact repr64_of_finBits _ ⟨_, _, _, d35⟩
+  have r2 : Repr64 (valQ 0x4000000000000000 * ((⌊valQ 0x401c000000000000 / valQ 0x4000000000000000⌋ : ℤ) : ℚ)) := by
+    rw [v7, v2, hfl]
+    have : (2 : ℚ) * ((3 : ℤ) : ℚ) = valQ 0x4018000000000000 := by rw [v6]; norm_num
+    rw [this]; exact repr64_of_finBits _ ⟨_, _, _, d6⟩
+  have r3 : Repr64 (valQ 0x401c000000000000 - valQ 0x4000000000000000 * ((⌊valQ 0x401c000000000000 / valQ 0x4000000000000000⌋ : ℤ) : ℚ)) := by
+    rw [v7, v2, hfl]
+    have : (7 : ℚ) - 2 * ((3 : ℤ) : ℚ) = valQ 0x3ff0000000000000 := by rw [v1]; norm_num
+    rw [this]; exact repr64_of_finBits _ ⟨_, _, _, d1⟩
+  have hz : isZeroBits 0x4000000000000000 = false := by unfold isZeroBits; rw [d2]; rfl
+  have := ((num_mod_over_ieee _ _ ⟨_, _, _, d7⟩ ⟨_, _, _, d2⟩ hz).2 r1 r2 r3).1
+  rw [this, v7, v2, hfl]; norm_num
 
 /-- the handlers are what the opcodes run on two numbers -/
 theorem vm_number_handlers (c : Cfg) (N : NumOps) (a b : Nat) :
